@@ -292,6 +292,20 @@ func (f failure) Is(target error) bool {
 	return f.x%2 == 0 && (target == context.DeadlineExceeded || target == context.Canceled)
 }
 
+// nilErr is an error type whose Error method does not guard against a nil receiver (most do not).  A non-nil error that
+// holds a nil *nilErr is a failure like any other; whoever calls Error on it panics.  Where the errors go to pipe.StdErr -
+// the harness never looks at them - the odd failing elements fail that way.
+type nilErr struct{ x int }
+
+func (e *nilErr) Error() string { return strconv.Itoa(e.x) }
+
+func (fs *fnset) failed(x int) error {
+	if fs.stderr && x%2 != 0 {
+		return (*nilErr)(nil)
+	}
+	return failure{x}
+}
+
 // fnset is one set of harness-owned user functions (a pipeline has one per stage).
 type fnset struct {
 	c      *ctl
@@ -299,6 +313,7 @@ type fnset struct {
 	pred   map[int]bool
 	monoid string
 	step   string
+	stderr bool // the errors of this stage go to pipe.StdErr (nobody but the library sees them)
 }
 
 func (c *ctl) fns(cfg Cfg) *fnset {
@@ -319,7 +334,7 @@ func (c *ctl) fns(cfg Cfg) *fnset {
 }
 
 func (c *ctl) fns0(cfg Cfg) *fnset {
-	fs := &fnset{c: c, fail: map[int]bool{}, pred: map[int]bool{}, monoid: cfg.Monoid, step: cfg.Step}
+	fs := &fnset{c: c, fail: map[int]bool{}, pred: map[int]bool{}, monoid: cfg.Monoid, step: cfg.Step, stderr: cfg.StdErr}
 	for _, x := range cfg.Fail {
 		fs.fail[x] = true
 	}
@@ -332,7 +347,7 @@ func (c *ctl) fns0(cfg Cfg) *fnset {
 func (fs *fnset) fnMap(x int) (int, error) {
 	fs.c.enter(0, x)
 	if fs.fail[x] {
-		return 0, failure{x}
+		return 0, fs.failed(x)
 	}
 	return 10 * x, nil
 }
@@ -350,7 +365,7 @@ func images(x int) []int {
 func (fs *fnset) fnArrow(ctx context.Context, x int, out chan<- int) error {
 	fs.c.enter(0, x)
 	if fs.fail[x] {
-		return failure{x}
+		return fs.failed(x)
 	}
 	for _, y := range images(x) {
 		select {
@@ -365,7 +380,7 @@ func (fs *fnset) fnArrow(ctx context.Context, x int, out chan<- int) error {
 func (fs *fnset) fnPred(x int) (bool, error) {
 	fs.c.enter(0, x)
 	if fs.fail[x] {
-		return true, failure{x}
+		return true, fs.failed(x)
 	}
 	return fs.pred[x], nil
 }
@@ -373,7 +388,7 @@ func (fs *fnset) fnPred(x int) (bool, error) {
 func (fs *fnset) fnEach(x int) (int, error) {
 	fs.c.enter(0, x)
 	if fs.fail[x] {
-		return x, failure{x} // ForEach ignores what its function returns: every element is still visited
+		return x, fs.failed(x) // ForEach ignores what its function returns: every element is still visited
 	}
 	return x, nil
 }
@@ -381,7 +396,7 @@ func (fs *fnset) fnEach(x int) (int, error) {
 func (fs *fnset) fnEmit(i int) (int, error) {
 	fs.c.enter(0, i)
 	if fs.fail[i] {
-		return 0, failure{i}
+		return 0, fs.failed(i)
 	}
 	return 100 + i, nil
 }
@@ -400,7 +415,7 @@ func (fs *fnset) fnStep(s int) (int, error) {
 	fs.c.enter(0, s)
 	if fs.fail[s] {
 		// a failed step still returns a value: Unfold goes on from it under Try (the stream "jumps")
-		return s + 100, failure{s}
+		return s + 100, fs.failed(s)
 	}
 	return StepFn(fs.step, s), nil
 }
@@ -724,6 +739,7 @@ func (c *ctl) build() {
 // pipeStage builds one int -> int stage of a pipeline; its error channel (if any) goes to pipe.StdErr.
 func (c *ctl) pipeStage(st Cfg, in <-chan int) <-chan int {
 	fs := c.fns(st)
+	fs.stderr = true
 	ctx := c.ctx
 	switch {
 	case st.Kind == "Map" && !st.Forked:
